@@ -115,9 +115,10 @@ type Op struct {
 	Vid     string
 	SB, SK  string
 	SVid    string
-	VidRef  int  // 1 / 2: Vid = newest / oldest version id issued so far for (B, K) in this program (resolved by the runner)
-	UpRef   bool // UpID = the id of the first upload created for (B, K) in this program (resolved by the runner)
-	SrcOver bool // spell the copy source with more percent-escapes than needed (the same source for S3)
+	Grants  [][2]string // putBucketAclGrants: (permission, access) pairs as sent: FULL_CONTROL|READ|READ_ACP|WRITE|WRITE_ACP
+	VidRef  int         // 1 / 2: Vid = newest / oldest version id issued so far for (B, K) in this program (resolved by the runner)
+	UpRef   bool        // UpID = the id of the first upload created for (B, K) in this program (resolved by the runner)
+	SrcOver bool        // spell the copy source with more percent-escapes than needed (the same source for S3)
 	Put     *PutSpec
 	Canned  string
 	Own     string
@@ -273,6 +274,16 @@ func (o *Op) ModelLine(obs *Obs) string {
 		a = []string{hx(o.Prefix), hx(o.Token), strconv.Itoa(mx)}
 	case "putBucketPolicy":
 		a = []string{hx(o.B), o.Policy.line(), b01(o.Valid)}
+	case "putBucketAclGrants":
+		var gs []string
+		for _, g := range normGrants(o.Grants) {
+			gs = append(gs, g[0]+":"+hx(g[1]))
+		}
+		j := "-"
+		if len(gs) > 0 {
+			j = strings.Join(gs, ",")
+		}
+		a = []string{hx(o.B), j}
 	case "putBucketAcl":
 		c := o.Canned
 		if c == "" {
@@ -476,6 +487,22 @@ func parseTags(body []byte) []KV {
 	var out []KV
 	for _, x := range t.Tags {
 		out = append(out, KV{x.Key, x.Value})
+	}
+	return out
+}
+
+// normGrants: the grants as the gateway keeps them: header order FULL_CONTROL, READ, READ_ACP, WRITE, WRITE_ACP;
+// within one header the order given, repetitions within one header dropped
+func normGrants(gs [][2]string) [][2]string {
+	var out [][2]string
+	for _, p := range []string{"FULL_CONTROL", "READ", "READ_ACP", "WRITE", "WRITE_ACP"} {
+		seen := map[string]bool{}
+		for _, g := range gs {
+			if g[0] == p && !seen[g[1]] {
+				seen[g[1]] = true
+				out = append(out, g)
+			}
+		}
 	}
 	return out
 }
@@ -701,6 +728,16 @@ func (w *World) Exec(o *Op) *Obs {
 		req.Method, req.Path, req.Query = "PUT", bpath, "acl"
 		if o.Canned != "" && o.Canned != "none" {
 			req.Set("x-amz-acl", o.Canned)
+		}
+	case "putBucketAclGrants":
+		req.Method, req.Path, req.Query = "PUT", bpath, "acl"
+		hdr := map[string]string{"FULL_CONTROL": "x-amz-grant-full-control", "READ": "x-amz-grant-read", "READ_ACP": "x-amz-grant-read-acp", "WRITE": "x-amz-grant-write", "WRITE_ACP": "x-amz-grant-write-acp"}
+		per := map[string][]string{}
+		for _, g := range o.Grants {
+			per[g[0]] = append(per[g[0]], g[1])
+		}
+		for p, accs := range per {
+			req.Set(hdr[p], strings.Join(accs, ","))
 		}
 	case "getBucketAcl":
 		req.Method, req.Path, req.Query = "GET", bpath, "acl"
